@@ -9,7 +9,7 @@ CONSTANTS
   MaxRestarts = 1
   ByzMode = "branch"
   ByzRanges <- R123
-  Fixes <- NoFix
+  Fixes <- AllFixes
 VIEW view
 INVARIANTS TypeOK LibOnMain ConfirmsOnMain Agreement HonestConfirms
 PROPERTIES LibMonotone Final NoForkBelowLib LibQuorum RestoreEqualsRecompute
